@@ -150,3 +150,13 @@ func VerifLoginPack(config *LoginConfig) (Package, error) { return config.pack()
 func VerifRsaEncrypt(pemKey, nonce, msg []byte) ([]byte, error) {
 	return rsaEncrypt(pemKey, nonce, msg)
 }
+
+// VerifSetChannelId re-registers the channel under another id (logical
+// channels cannot be set up without a peer acknowledging them).
+func (tdsChan *Channel) VerifSetChannelId(id int) {
+	tdsChan.tdsConn.tdsChannelsLock.Lock()
+	defer tdsChan.tdsConn.tdsChannelsLock.Unlock()
+	delete(tdsChan.tdsConn.tdsChannels, tdsChan.channelId)
+	tdsChan.channelId = id
+	tdsChan.tdsConn.tdsChannels[id] = tdsChan
+}
